@@ -149,6 +149,10 @@ def oracle_value(case_kind, v, vlevel, declared, prior=None):
         r0 = impl.outcome(lambda: (l.set(name, prior), l.delete(name)))
         if r0[0] != 'ok':
             return [('assigning and deleting a tag raised', 'ok', impl.outcome_name(r0))], obs
+        # ... and a copy of the line was given a tag of that name with that other kind of value: the copy is another line
+        r0 = impl.outcome(lambda: l.clone().set(name, prior))
+        if r0[0] != 'ok':
+            return [('assigning a tag on a copy raised', 'ok', impl.outcome_name(r0))], obs
     kt = kind_term(v)
     dt_expected = declared or DOC_DEFAULT.get(kt)
     ok_repr = representable(case_kind, v, dt_expected)
